@@ -305,6 +305,13 @@ static void out_handle(KSI_AsyncHandle *h) {
 		if (KSI_AsyncHandle_getExtendResp(h, &er) == KSI_OK && er) { KSI_Integer *st = NULL; KSI_ExtendResp_getRequestId(er, &rid); KSI_ExtendResp_getStatus(er, &st); kx_out(" respid=%llu respstatus=%llu", (unsigned long long)KSI_Integer_getUInt64(rid), (unsigned long long)KSI_Integer_getUInt64(st)); }
 		r = KSI_AsyncHandle_getSignature(h, &sig); kx_out(" sigrc=%d", r);
 		if (r == KSI_OK && sig) { KSI_DataHash *dh = NULL; const unsigned char *imp; size_t il; if (KSI_Signature_getDocumentHash(sig, &dh) == KSI_OK && dh) { KSI_DataHash_getImprint(dh, &imp, &il); kx_outhex("sigdoc", imp, il); } out_sig("sig", sig); }
+		if (r == KSI_OK && sig) {
+			/* asking the same handle once more gives the same signature once more */
+			KSI_Signature *sig2 = NULL; unsigned char *a = NULL, *b = NULL; size_t al = 0, bl = 0; int r2 = KSI_AsyncHandle_getSignature(h, &sig2);
+			if (r2 != KSI_OK || !sig2) kx_out(" sig2rc=%d", r2 ? r2 : -1);
+			else if (KSI_Signature_serialize(sig, &a, &al) == KSI_OK && KSI_Signature_serialize(sig2, &b, &bl) == KSI_OK) { kx_out(" sig2same=%d", al == bl && !memcmp(a, b, al)); if (!(al == bl && !memcmp(a, b, al))) out_sig("sig2", sig2); }
+			KSI_free(a); KSI_free(b); KSI_Signature_free(sig2);
+		}
 		KSI_Signature_free(sig);
 	} else if (state == KSI_ASYNC_STATE_PUSH_CONFIG_RECEIVED) {
 		KSI_Config *cfg = NULL; char b[512] = "-"; if (KSI_AsyncHandle_getConfig(h, &cfg) == KSI_OK && cfg) fmt_config(cfg, b, sizeof b); kx_out(" config=%s", b);
@@ -397,13 +404,15 @@ ext_done:
 		if (rc == KSI_OK && e) out_sig("sig", e);
 		KSI_Signature_free(*slot); *slot = e; return rc; }
 	if (is("blocksign")) { /* blocksign <c> <nleaves> <masking 0|1> <meta 0|1> <seed>: whole block signer life cycle; signatures of all leaves are verified internally */
-		KSI_CTX *c = kx_ctx(atoi(tok[1])); int n = atoi(tok[2]), masking = atoi(tok[3]), meta = atoi(tok[4]); unsigned seed = (unsigned)atoi(tok[5]); int i, rc; int nsig = 0; int cont = (int)kx_kvl("cont", 0), firsterr = 0, nfail = 0;
+		KSI_CTX *c = kx_ctx(atoi(tok[1])); int n = atoi(tok[2]), masking = atoi(tok[3]), meta = atoi(tok[4]); unsigned seed = (unsigned)atoi(tok[5]); int i, rc; int nsig = 0; int cont = (int)kx_kvl("cont", 0), retry = (int)kx_kvl("retry", 0), retried_leaf = 0, firsterr = 0, nfail = 0;
 		KSI_BlockSigner *bs = NULL; KSI_BlockSignerHandle *h[64]; KSI_DataHash *prev = NULL; KSI_OctetString *iv = NULL; unsigned char ivb[32];
 		if (n > 64) n = 64; memset(h, 0, sizeof h);
 		if (masking) { for (i = 0; i < 32; i++) ivb[i] = (unsigned char)(seed + (unsigned)i); rc = KSI_OctetString_new(c, ivb, 32, &iv); if (rc) goto bs_done; rc = KSI_DataHash_createZero(c, KSI_HASHALG_SHA2_256, &prev); if (rc) goto bs_done; }
 		rc = KSI_BlockSigner_new(c, KSI_HASHALG_SHA2_256, prev, iv, &bs); if (rc) goto bs_done;
 		for (i = 0; i < n; i++) {
 			KSI_DataHash *dh = NULL; KSI_MetaData *md = NULL; unsigned char data[8];
+			/* retry=1: a leaf whose addition failed is offered once more (the fault of the allocation-failure check is a one-off): the block has to come out
+			 * exactly as if nothing had failed */
 			memcpy(data, &seed, 4); memcpy(data + 4, &i, 4);
 			rc = KSI_DataHash_create(c, data, 8, KSI_HASHALG_SHA2_256, &dh); if (rc) goto bs_done;
 			if (meta) { KSI_Utf8String *cid = NULL; rc = KSI_MetaData_new(c, &md); if (rc) { KSI_DataHash_free(dh); goto bs_done; }
@@ -412,6 +421,7 @@ ext_done:
 			rc = KSI_BlockSigner_addLeaf(bs, dh, 0, md, &h[i]);
 			KSI_DataHash_free(dh); KSI_MetaData_free(md);
 			/* cont=1: a refused leaf is given up, the signer is used on (the objects must stay usable after a failure) */
+			if (rc && retry && retried_leaf != i + 1) { if (!firsterr) firsterr = rc; nfail++; if (h[i]) { kx_out(" handle_on_error=%d", i); KSI_BlockSignerHandle_free(h[i]); h[i] = NULL; } retried_leaf = i + 1; i--; rc = 0; continue; }
 			if (rc && cont) { if (!firsterr) firsterr = rc; nfail++; if (h[i]) { kx_out(" handle_on_error=%d", i); } rc = 0; continue; }
 			if (rc) goto bs_done;
 		}
@@ -429,10 +439,11 @@ ext_done:
 			KSI_DataHash_free(dh); KSI_Signature_free(sg);
 			if (r2 == KSI_OK) nsig++; else if (r2 == KSI_VERIFICATION_FAILURE) kx_out(" badsig=%d", i); else { rc = r2; goto bs_done; }
 		}
-		if (cont) kx_out(" completed=1");
+		if (cont || retry) kx_out(" completed=1");
+		if (retry) { KSI_DataHash *pl = NULL; const unsigned char *imp; size_t il; if (KSI_BlockSigner_getPrevLeaf(bs, &pl) == KSI_OK && pl && KSI_DataHash_getImprint(pl, &imp, &il) == KSI_OK) kx_outhex("prevleaf", imp, il); else kx_out(" prevleaf=-"); KSI_DataHash_free(pl); }
 bs_done:
 		kx_out(" nsig=%d", nsig);
-		if (cont) { kx_out(" failed_calls=%d", nfail); if (!rc) rc = firsterr; }
+		if (cont || retry) { kx_out(" failed_calls=%d", nfail); if (!rc && cont) rc = firsterr; }
 		for (i = 0; i < 64; i++) KSI_BlockSignerHandle_free(h[i]);
 		KSI_BlockSigner_free(bs); KSI_DataHash_free(prev); KSI_OctetString_free(iv);
 		return rc; }
